@@ -64,7 +64,10 @@ def withSlot {Î± : Type} (s : AccumState) (h : String) (f : Store â†’ Handle â†’
 def parseBool (s : String) : Option Bool :=
   if s = "1" then some true else if s = "0" then some false else none
 
-def stepAccum (s : AccumState) (op : String) (args : List String) : AccumState Ã— String :=
+/-- names on op lines: the token `""` is the empty name (the line protocol splits on blanks) -/
+def nameTok (t : String) : String := if t = "\"\"" then "" else t
+
+def stepAccumRaw (s : AccumState) (op : String) (args : List String) : AccumState Ã— String :=
   match op, args with
   | "reset", [] => (initAccum, "ok")
   | "make", [name] =>
@@ -162,5 +165,12 @@ def stepAccum (s : AccumState) (op : String) (args : List String) : AccumState Ã
         | some t => (s, s!"ok {showCoins t}")
   | "dump", [] => (s, dump s)
   | _, _ => (s, "bad-op")
+
+/-- position names are the second argument of every op that has one (`<op> <handle> <pos> â€¦`) -/
+def stepAccum (s : AccumState) (op : String) (args : List String) : AccumState Ã— String :=
+  match op, args with
+  | "make", _ | "get", _ | "grow", _ | "value", _ | "total", _ | "reset", _ | "dump", _ => stepAccumRaw s op args
+  | _, h :: pos :: rest => stepAccumRaw s op (h :: nameTok pos :: rest)
+  | _, _ => stepAccumRaw s op args
 
 end OsmoVerif.Accum
